@@ -94,6 +94,12 @@ func unmarshalTargets() []func() interface{} {
 		func() interface{} { var v ion.SymbolToken; return &v },
 		func() interface{} { var v *string; return &v },
 		func() interface{} { var v []string; return &v },
+		func() interface{} { var v map[NamedKey]int; return &v },
+		func() interface{} { var v NamedMix; return &v },
+		func() interface{} { var v []NamedMap; return &v },
+		func() interface{} { var v [2][]NamedKey; return &v },
+		func() interface{} { var v TagMix; return &v },
+		func() interface{} { var v DeepOuter; return &v },
 	}
 }
 
@@ -820,7 +826,7 @@ func runC06(c *Ctx) {
 		c06RunBatch(c, b, inputs[lo:hi])
 	})
 	c.Obs("inputs", int64(len(inputs)))
-	c.Sample(map[string]interface{}{"classes": classCount, "api_runs_per_input": []string{"traversal", "traversal+catalog", "random-calls", "decoder", "unmarshal (3 targets)", "unmarshal (27 targets, short inputs)"}})
+	c.Sample(map[string]interface{}{"classes": classCount, "api_runs_per_input": []string{"traversal", "traversal+catalog", "random-calls", "decoder", "unmarshal (3 targets)", "unmarshal (33 targets, short inputs)"}})
 	c.Sample(map[string]interface{}{"example": "e00100ea8e" + hex.EncodeToString(vu(1<<48)), "class": "extreme-length"})
 }
 
